@@ -7,18 +7,20 @@ from harness.common import mk_ub, rot_from_rotvec
 
 SPEC = {
     "gen": [],
-    "modules": ["DiffcalcProofs.Props.C20"],
+    "modules": ["DiffcalcProofs.Props.C20", "DiffcalcProofs.Props.C20Round"],
     "theorems": {"DiffcalcProofs.Props.C20": [
         "C20.rodrigues_apply", "C20.forward_norm", "C20.offset_closed", "C20.offset_components", "C20.forward_angle",
-        "C20.azimuth_recovered", "C20.gate_open"]},
+        "C20.azimuth_recovered", "C20.gate_open"],
+        "DiffcalcProofs.Props.C20Round": ["C20.cosBetween_eq", "C20.forward_closed", "C20.auxAxis_pos", "C20.polar_roundtrip"]},
     "level": "proof",
     "rule": "reference vectors (random, axis-aligned, along the lab y and z axes so that the auxiliary axis switches), polar angles in (0,180), azimuths on a fine "
             "sweep plus every multiple of 30/45/90 deg plus beyond +-360, scales 0.25..4, on cubic/identity, tetragonal/rotated and triclinic/rotated set-ups; the model "
             "(Rodrigues rotation) is compared with both functions; the oracle checks |UB.v'| = |UB.v|, angle = pol, and the inverse returning (pol, az mod 360, s); "
             "distinct = distinct (set-up, reference kind, azimuth class)",
     "assumptions": ["scipy Rotation.from_rotvec is modelled by the Rodrigues formula (validated numerically by the correspondence)"],
-    "partial": "the theorems establish the forward clauses and the frame decomposition + azimuth recovery on which the inverse relies; the composition through "
-               "angle_between_vectors / bound / plane distances is covered by correspondence and oracle",
+    "partial": "proved on the model for every UB = U.B, reference, polar angle in [0,180] with sin(pol) >= 2e-7, every azimuth and every positive scale (polar_roundtrip: the inverse, "
+               "composed through angle_between_vectors / bound / plane distances / the azimuth gate, returns (pol, az mod 360, s)); side conditions are the code's own 1e-7 thresholds "
+               "(|UB.ref| >= 1e-7, area s|w|^2 sin(pol) >= 1e-7); degrees<->radians conversion of the arguments and scipy's from_rotvec are tied by correspondence",
 }
 
 SETUPS = [((1.54,), (0, 0, 0)), ((4.0, 6.0), (0.3, -0.5, 0.7)), ((4.1, 5.2, 6.3, 80, 95, 100), (0.2, 0.6, -0.4)), ((3.0, 3.0, 5.0, 120), (0, 0, 0.3))]
